@@ -400,7 +400,7 @@ func init() {
 		Assumptions: []string{"crash model = SIGKILL: completed write(2)/rename/unlink calls survive, nothing is reordered (no power-loss model)", "snapshots are taken while no other hooked mutation is in flight; writes to *.tmp files are not hooked (tmp files are ignored by recovery)", "server-compressed records are expanded with the Go QuickLZ decoder to obtain the durable value"},
 		Plan: func(tier string, seed uint64) []Job {
 			var jobs []Job
-			n, hist, maxs := 14, 1, 200
+			n, hist, maxs := 12, 1, 150
 			if tier == "thorough" {
 				n, hist, maxs = 42, 8, 400
 			}
